@@ -50,7 +50,9 @@ def run(chk):
         "may reach a type-mismatch or zero-division ValueError in the matching VrlValueArithmetic method (P-VAR over the method's MIR, coercion calls "
         "included). R02g (coercions narrower than the declared parameter kind): when resolve (or the stdlib helper an argument is handed to) applies a "
         "VrlValueConvert::try_* coercion to an argument in a P-VAR state that still admits a variant the parameter declares but the coercion rejects, "
-        "the function's type_def — evaluated abstractly (P-ABS) with that argument typed exactly that kind — must be fallible. Undecided: pending_fallibilities bookkeeping (seeding agents found `{ to_int(.x); 6 } / 2` accepted), the NaN exception the source "
+        "the function's type_def — evaluated abstractly (P-ABS) with that argument typed exactly that kind — must be fallible. R02h (per-argument-type refinement of R02a): for a function whose type_def depends on its arguments, whenever the type_def evaluated with one "
+        "argument typed exactly X is infallible, no message-error construction (here or in a stdlib helper reached from here) is reachable in a P-VAR state "
+        "where that argument is an X. Undecided: pending_fallibilities bookkeeping (seeding agents found `{ to_int(.x); 6 } / 2` accepted), the NaN exception the source "
         "documents (float results that become NaN), operators applied to constants (resolve_constant is abstracted as None), `|` (Op::new admits only objects).")
     M = fmap.FMap(facts)
     rid = "R02a"
@@ -162,6 +164,7 @@ def run(chk):
     rule_r02d(chk)
     rule_r02e(chk)
     rule_r02g(chk, M)
+    rule_r02h(chk, M)
     from p_c01 import rule_r01g
     rule_r01g(chk)          # shared with C01: a branch compiled on the other branch's variable types yields infallible-typed calls that fail
 
@@ -431,3 +434,132 @@ def rule_r02g(chk, M):
                                   "it: a call accepted without `!` fails at run time" % (ident, fld, "|".join(sorted(k for k in kinds_of[fld])), var.lower(), co,
                                                                                        wb.file, ln), detail=d, loc="%s:%s" % (wb.file, ln))
     chk.extra["R02g_arguments_examined"] = n_args
+
+
+def rule_r02h(chk, M):
+    import tinfo
+    import stdlibrules as sr
+    facts = chk.facts
+    rid = "R02h"
+    chk.rule(rid, "type_def infallible for an argument of kind X => no message error reachable while that argument is an X", floor=60)
+    bitname = {"BYTES": "bytes", "INTEGER": "integer", "FLOAT": "float", "BOOLEAN": "boolean", "OBJECT": "object", "ARRAY": "array",
+               "TIMESTAMP": "timestamp", "REGEX": "regex", "NULL": "null"}
+    is_msg = lambda t: "ExpressionError" in (t.get("conv") or "") and ("From<&str>" in t["conv"] or "From<std::string::String>" in t["conv"])
+    # stdlib bodies that can construct a message error themselves or through stdlib helpers
+    direct = set()
+    for i in facts.index:
+        n = i["name"]
+        if n.startswith("stdlib::") or n.startswith("<stdlib::"):
+            b = facts.body(n)
+            if any(is_msg(t) for bb, t in b.calls()):
+                direct.add(n)
+    memo = {}
+
+    def can_err(n):
+        if n in memo:
+            return memo[n]
+        memo[n] = False
+        seen, ext, par = facts.reach([n], stop=lambda c: fmap.is_child_eval(c) or not (c.startswith("stdlib::") or c.startswith("<stdlib::")), cha=False)
+        memo[n] = bool(set(seen) & direct)
+        return memo[n]
+
+    def err_states(name, local):
+        """[(variants of the value in `local` (or None), line)] at every message-error site / call into an error-capable stdlib helper"""
+        b = facts.body(name)
+        al = sr.value_aliases(b, [local])
+        vals = sorted(x for x in al if b.local_ty(x).endswith("value::value::Value"))
+        vf = VarFlow(facts, b, extra_locals=vals)
+        out = []
+
+        def on_term(bb, t, st):
+            if t["k"] != "call":
+                return
+            cal = b.callee(t)
+            hot = is_msg(t) or (facts.has(cal) and cal != name and (cal.startswith("stdlib::") or cal.startswith("<stdlib::")) and can_err(cal)
+                                and not any(op_local(a) in al for a in t["args"]))
+            if not hot:
+                return
+            cur = None
+            for x in sorted(al):
+                for k in ("_%d" % x, "(*_%d)" % x):
+                    v = st.get(k)
+                    if v is not None:
+                        vs = set(v) - {MOVED}
+                        if vs and vs <= set(VAR_OF.values()):
+                            cur = vs if cur is None else (cur & vs)
+            out.append((cur, t["ln"]))
+        vf.run(on_term=on_term)
+        return out
+
+    n_triples = 0
+    for f in M.functions.values():
+        if always_infallible(facts, M, f):
+            continue      # R02a
+        ident = f["identifier"]
+        params = {p["keyword"]: p for p in (fmap.parameters_of(facts, f) or []) if p.get("keyword")}
+        for e in f["exprs"]:
+            tname = M.method_body(e, "type_def")
+            adt = facts.adts.get(e)
+            rn = M.resolve_body(e)
+            if not tname or not adt or not rn:
+                continue
+            rb = facts.body(rn)
+            v = adt["variants"][0]
+            fields, kinds_of = {}, {}
+            for fld, ty in zip(v["fields"], v["ftys"]):
+                if re.match(r"^std::boxed::Box<\(?dyn compiler::expression::Expression", ty):
+                    fields[fld] = tinfo.boxed(tinfo.Expr(fld))
+                elif ty.startswith("std::option::Option<std::boxed::Box<"):
+                    fields[fld] = tinfo.Enum("std::option::Option", "Some", {"0": tinfo.boxed(tinfo.Expr(fld))})
+                else:
+                    fields[fld] = tinfo.UNK
+                p = params.get(fld)
+                kinds_of[fld] = {n for b_, n in bitname.items() if p and p.get("kind") and p["kind"] & fmap.KIND_BITS[b_]} or set(tinfo.KINDS)
+            for fld, ty in zip(v["fields"], v["ftys"]):
+                if not re.match(r"^std::boxed::Box<\(?dyn compiler::expression::Expression", ty) or fld not in params or not params[fld].get("kind"):
+                    continue
+                starts = sr.argument_value_locals(facts, rb, fld)
+                if len(starts) != 1:
+                    continue
+                # where the argument is matched: a stdlib helper it is handed to, else resolve itself
+                al = sr.value_aliases(rb, starts)
+                sites = None
+                where = None
+                for bb, t in rb.calls():
+                    cal = rb.callee(t)
+                    pos = [i for i, a in enumerate(t["args"]) if op_local(a) in al]
+                    if pos and facts.has(cal) and (cal.startswith("stdlib::") or cal.startswith("<stdlib::")) and "::{closure" not in cal:
+                        cb = facts.body(cal)
+                        if pos[0] + 1 <= cb.argc:
+                            sites, where = err_states(cal, pos[0] + 1), cal
+                            break
+                if sites is None:
+                    sites, where = err_states(rn, starts[0]), rn
+                bad = []
+                for kname in sorted(kinds_of[fld]):
+                    if kname not in VAR_OF:
+                        continue
+                    exprs = {k2: tinfo.TD(set(v2)) for k2, v2 in kinds_of.items()}
+                    exprs[fld] = tinfo.TD({kname})
+                    it = tinfo.Interp(facts, exprs)
+                    try:
+                        res = it.call_body(tname, [tinfo.Ref(tinfo.Enum(e, None, dict(fields))), tinfo.Ref(tinfo.ST())])
+                    except tinfo.Undecided:
+                        continue
+                    if not isinstance(res, tinfo.TD) or res.fallible:
+                        continue
+                    n_triples += 1
+                    for cur, ln in sites:
+                        # only sites whose state pins the argument to this variant are decided (an unconstrained site is R02a's business)
+                        if cur is not None and VAR_OF[kname] in cur and len(cur) <= 3:
+                            bad.append((kname, ln))
+                d = {"function": ident, "argument": fld, "matched_in": where, "error_sites": len(sites),
+                     "infallible_but_error_reachable_for": sorted(set(x[0] for x in bad))}
+                chk.instance(rid, d, ok=not bad)
+                for kname, ln in sorted(set(bad)):
+                    wb = facts.body(where)
+                    chk.violation(rid, wb.file, where, "`%s` typed infallible for a %s `%s` but can return a message error" % (ident, kname, fld),
+                                  "`%s`: type_def evaluated with `%s` typed %s is infallible, yet with a %s argument %s can return a message error "
+                                  "(%s:%s): a call accepted without `!` fails at run time" % (ident, fld, kname, kname, where, wb.file, ln), detail=d,
+                                  loc="%s:%s" % (wb.file, ln))
+    chk.extra["R02h_infallible_argument_types_examined"] = n_triples
